@@ -1,0 +1,44 @@
+//go:build verif
+// +build verif
+
+package tar
+
+import "context"
+
+// PubsubVerif exposes the package's pubsub to verification harnesses.
+type PubsubVerif struct{ ps *pubsub }
+
+// NewPubsubVerif returns the real pubsub bound to ctx.
+func NewPubsubVerif(ctx context.Context) *PubsubVerif { return &PubsubVerif{newPubsub(ctx)} }
+
+// Emit forwards to pubsub.Emit.
+func (p *PubsubVerif) Emit(key string) { p.ps.Emit(key) }
+
+// Wait forwards to pubsub.Wait.
+func (p *PubsubVerif) Wait(key string) { p.ps.Wait(key) }
+
+// BufferPoolVerif exposes the package's bufferPool to verification harnesses.
+type BufferPoolVerif struct{ p *bufferPool }
+
+// BufferVerif is a buffer handed out by BufferPoolVerif.
+type BufferVerif struct{ b *buffer }
+
+// NewBufferPoolVerif returns the real buffer pool.
+func NewBufferPoolVerif(bufferSize, maxBuffers uint64) *BufferPoolVerif {
+	return &BufferPoolVerif{newBufferPool(bufferSize, maxBuffers)}
+}
+
+// Wait forwards to bufferPool.Wait.
+func (p *BufferPoolVerif) Wait() *BufferVerif { return &BufferVerif{p.p.Wait()} }
+
+// Provisioned returns the number of buffers allocated so far.
+func (p *BufferPoolVerif) Provisioned() int64 { return p.p.count }
+
+// Capacity returns the maximum number of buffers.
+func (p *BufferPoolVerif) Capacity() int { return cap(p.p.buffers) }
+
+// Data returns the buffer's bytes.
+func (b *BufferVerif) Data() []byte { return b.b.Data }
+
+// Done forwards to buffer.Done.
+func (b *BufferVerif) Done() { b.b.Done() }
